@@ -13,8 +13,8 @@ def graph_cfg(max_edges):
 def classify(ev, events, pos):
     pair = events[0]
     rules = "+".join(r for r in pair["rules"] if r != "PredicateAttachment") or "no-rule-recorded"
-    clauses = pair["orig"]["clauses"]
-    shape = "%d-clauses%s%s%s" % (len(clauses), "/optional" if any(c["t"] == "optional" for c in clauses) else "",
+    clauses = [c for p in pair["orig"]["parts"] for c in p["clauses"]]
+    shape = "%d-parts/%d-clauses%s%s%s" % (len(pair["orig"]["parts"]), len(clauses), "/optional" if any(c["t"] == "optional" for c in clauses) else "",
                                    "/path-variable" if any(p["pv"] for c in clauses for p in c["pats"]) else "",
                                    "/variable-length" if any(not e.get("single", True) for c in clauses for p in c["pats"] for e in p["els"] if e["t"] == "rel") else "")
     return "rewrite-changes-results/%s/%s" % (rules, shape)
@@ -27,7 +27,7 @@ def run(ctx):
                         "SQL (projection pruning, pushdowns, fast paths, ...) need the optimised and unoptimised SQL executed on PostgreSQL, which the sandbox does not have",
                         "semantics: spec/CypherSem/MatchSem.tla - MATCH / OPTIONAL MATCH sequences, kinds, directions, variable-length ranges, path variables, relationship uniqueness per "
                         "MATCH; WHERE conditions and inline property maps are uninterpreted atoms over the variables they mention (the rewrites never change a condition)",
-                        "only the first query part is evaluated (what a WITH hands on is not modelled); shortest-path patterns and UNWIND are outside the fragment",
+                        "query parts are evaluated up to the first WITH that does more than hand variables on (DISTINCT, aggregation, ORDER BY, SKIP, LIMIT, WHERE, expressions); shortest-path patterns, UNWIND and updating clauses are outside the fragment",
                         "graphs: every graph with 2-3 nodes (kind sets {1},{2},{1,2}) and up to 2 (quick) / 3 (thorough) edges of 2 kinds, self loops and 2-cycles included; a pair is "
                         "evaluated on a deterministic sample of them"]
     # 1. the semantics' own unit checks
@@ -43,7 +43,7 @@ def run(ctx):
     write_ndjson(gp, graphs)
     skeletons = []
     # two families: every shape (the reversal rule wants chains), and anchors + single steps only (the reordering rule wants several independent anchors)
-    for shapes, num in (('{"node", "step", "var", "chain"}', 500 if quick else 4000), ('{"node", "step"}', 500 if quick else 4000)):
+    for shapes, num in (('{"node", "step", "var", "chain", "chain3"}', 600 if quick else 5000), ('{"node", "step"}', 500 if quick else 4000)):
         s = ctx.tlc(AREA, "QueryGen", cfg_text='SPECIFICATION Spec\nCONSTANTS\n  MaxClauses = 3\n  Shapes = %s\n  Family = "random"\nCHECK_DEADLOCK FALSE\n' % shapes, workers=1,
                     simulate="num=%d" % num, depth=5, timeout=3000)
         skeletons += ctx.printed_json(s.out)
@@ -77,7 +77,7 @@ def run(ctx):
     if sample:
         ctx.cov["samples"].append(sample)
     ctx.cov["exhaustive"] = False
-    ctx.cov["rule"] = ("every corpus model and every rendered skeleton goes through the real optimize.Optimize; where the first query part comes back changed, the part as written and "
+    ctx.cov["rule"] = ("every corpus model and every rendered skeleton goes through the real optimize.Optimize; where the exported parts come back changed, the query as written and "
                        "as rewritten are exported from the two models and must have the same bag of results on every sampled graph.  non-trivial = rewritten pairs")
     if pairs < 10:
         raise ToolFailure("only %d rewritten pairs: the skeletons no longer trigger the rewrites" % pairs)
@@ -88,7 +88,7 @@ def run(ctx):
             continue
         seen.add(key)
         ctx.report(key, "%r rewritten by %s: results differ on graph %s\n    as written: %s\n    rewritten : %s" % (
-            events[0]["text"], events[0]["rules"], json.dumps(ev["g"]), json.dumps(events[0]["orig"]["clauses"]), json.dumps(events[0]["opt"]["clauses"])),
+            events[0]["text"], events[0]["rules"], json.dumps(ev["g"]), json.dumps(events[0]["orig"]["parts"]), json.dumps(events[0]["opt"]["parts"])),
             {"text": events[0]["text"], "graph": ev["g"]})
 
 
@@ -97,17 +97,18 @@ def selftest(ctx):
     gp = os.path.join(ctx.work, "g.ndjson")
     write_ndjson(gp, ctx.printed_json(g.out))
     sp = os.path.join(ctx.work, "s.ndjson")
-    write_ndjson(sp, [[{"opt": False, "shape": "chain", "x": "a", "y": "b", "xk": 1, "yk": 2, "sel": 3, "pv": True, "dir": "out"}]])
+    write_ndjson(sp, [[{"opt": False, "shape": "chain", "x": "a", "y": "b", "xk": 1, "yk": 2, "sel": 3, "pv": True, "dir": "out", "w": "none"}]])
     t = os.path.join(ctx.work, "t.ndjson")
     ctx.vh(["opt", "export", "--graphs", gp, "--skeletons", sp, "--out", t, "--per-pair", "80"])
     ok, _, _ = ctx.validate_trace(AREA, "MatchSemTrace", t)
     lines = open(t).read().splitlines()
     for i, ln in enumerate(lines):
         e = json.loads(ln)
-        if e["e"] == "pair" and any(p["rev"] for c in e["opt"]["clauses"] for p in c["pats"]):
-            for c in e["opt"]["clauses"]:
-                for p in c["pats"]:
-                    p["rev"] = False          # as if the path were not turned back
+        if e["e"] == "pair" and any(p["rev"] for pt in e["opt"]["parts"] for c in pt["clauses"] for p in c["pats"]):
+            for pt in e["opt"]["parts"]:
+                for c in pt["clauses"]:
+                    for p in c["pats"]:
+                        p["rev"] = False          # as if the path were not turned back
             lines[i] = json.dumps(e)
     open(t, "w").write("\n".join(lines) + "\n")
     ok2, stuck, _ = ctx.validate_trace(AREA, "MatchSemTrace", t)
